@@ -36,6 +36,8 @@ func main() {
 		genC13(*out, *tier, *seed)
 	case "C14":
 		genC14(*out, *tier, *seed)
+	case "C18":
+		genC18(*out, *tier, *seed)
 	default:
 		fmt.Fprintln(os.Stderr, "unknown property", *prop)
 		os.Exit(2)
